@@ -72,6 +72,26 @@ func c17r1(c *Ctx) {
 		c.viol(R, key, hgc.Pos(), "HStore.GC does not test GCMgr.stat for a pass in progress before starting one")
 		return
 	}
+	// every refusal test is exactly `an entry exists`
+	ast.Inspect(hgc.Decl.Body, func(x ast.Node) bool {
+		is, ok := x.(*ast.IfStmt)
+		if !ok {
+			return true
+		}
+		var okVar types.Object
+		if as, isA := is.Init.(*ast.AssignStmt); isA && len(as.Lhs) == 2 && len(as.Rhs) == 1 {
+			if ix, isI := prog.Unparen(as.Rhs[0]).(*ast.IndexExpr); isI && prog.IsField(hgc.Info(), "store.GCMgr.stat")(prog.Unparen(ix.X)) {
+				okVar = prog.ObjOf(hgc.Info(), as.Lhs[1])
+			}
+		}
+		if okVar == nil {
+			return true
+		}
+		exact := prog.ObjOf(hgc.Info(), is.Cond) == okVar
+		c.check(exact && hgc.Terminates(is.Body), R, hgc.Key+": a registered pass always counts as running", c.pos(is), "if exists { refuse }",
+			"the already-running test is `"+types.ExprString(is.Cond)+"`, narrower than `an entry exists`: a pass that is still registered (e.g. cancel requested but not yet honoured) is treated as absent and a second pass is started beside it")
+		return true
+	})
 	if len(writes) == 0 {
 		c.viol(R, key, c.pos(reads[0]), "the already-running test (GCMgr.stat read under "+lockAt(c, hgc, reads[0])+") and the registration of the new pass are not in one critical section: the registration happens later, inside the spawned GCMgr.gc goroutine, so two requests for the same bucket can both pass the test and both start a pass")
 		return
@@ -377,6 +397,48 @@ func c17r4(c *Ctx) {
 		})
 		c.check(okA, R, f.Key+": "+short(pr[0])+" = argument", f.Pos(), "set from the resolved range", pr[0]+" is not set from the range argument")
 	}
+	// the destination search stops at the first non-empty earlier file
+	ast.Inspect(f.Decl.Body, func(x ast.Node) bool {
+		fs, ok := x.(*ast.ForStmt)
+		if !ok || fs.Post == nil {
+			return true
+		}
+		dec, isDec := fs.Post.(*ast.IncDecStmt)
+		as, isA := fs.Init.(*ast.AssignStmt)
+		if !isDec || dec.Tok != token.DEC || !isA || len(as.Rhs) != 1 {
+			return true
+		}
+		if be, isB := prog.Unparen(as.Rhs[0]).(*ast.BinaryExpr); !isB || be.Op != token.SUB || prog.ObjOf(info, be.X) != f.Param(1) {
+			return true
+		}
+		// the `size > 0` test inside
+		found := false
+		ast.Inspect(fs.Body, func(y ast.Node) bool {
+			is, isIf := y.(*ast.IfStmt)
+			if !isIf || found {
+				return true
+			}
+			for _, a := range prog.Decompose(is.Cond, true, is) {
+				if prog.AtomCmp(a, token.GTR, func(e ast.Expr) bool {
+					for _, s := range f.SourcesAt(e, is.Cond) {
+						if prog.MentionsField(info, s.Expr, "store.dataChunk.size") || strings.HasSuffix(s.Field, "size") {
+							return true
+						}
+					}
+					return false
+				}, prog.IsIntConst(info, 0)) {
+					found = true
+					c.check(f.Terminates(is.Body), R, f.Key+": destination search stops at the nearest non-empty earlier file", c.pos(is), "every branch under size > 0 ends the search",
+						"the backwards search for the destination continues past the nearest non-empty earlier file on some branch: GC then appends into (and, on overflow, walks gc.Dst++ through) older live files below the range")
+				}
+			}
+			return true
+		})
+		if !found {
+			c.undec(R, f.Key+": destination search", "size test not recognised in the destination search loop")
+		}
+		return true
+	})
 	// stores to gc.Dst: start argument, an earlier index, or increment
 	start := f.Param(1)
 	ast.Inspect(f.Decl.Body, func(x ast.Node) bool {
